@@ -1,5 +1,6 @@
 import LyModel.Text.Utf8
 import LyModel.Generated.Consts
+import LyModel.Generated.LexConsts
 /-!
 # JSON numbers: `lyjson_number` and `lyjson_exp_number` (`src/json.c`) as a buffer program
 
@@ -182,47 +183,92 @@ def prep (inp : Bytes) (expOff : Nat) (eVal : Int) : Prep :=
 
 def minusW (m : Nat) : Writes := if m == 1 then [(0, 45)] else []
 
-/-- `buf_len` as the signed sum the C computes, the stores before the final NUL, the lengths handed on -/
-def compose (inp : Bytes) (p : Prep) : Int × Writes × List Int :=
+/-- what one composition branch yields: `buf_len` as the signed sum the C computes, the stores before the final NUL,
+    the lengths handed to `memset` / the copy loop -/
+abbrev Composed := Int × Writes × List Int
+
+/-- `dp_position <= 0`: "0." zeros digits -/
+def composeB1 (inp : Bytes) (p : Prep) : Composed :=
   let m := p.m
-  if p.dp ≤ 0 then
-    let zeros := p.dp.natAbs
-    let bufLen : Int := m + 1 + p.dot + zeros + p.numLen
-    let c := copyNumPart (slice inp p.numOff p.numLen) p.decIdx (-1) (m + 2 + zeros)
-    (bufLen, minusW m ++ [(m, 48), (m + 1, 46)] ++ memsetW (m + 2) 48 zeros ++ c.1, [(zeros : Int), p.numLen])
-  else if p.leadingZero && p.dp < p.numLen then
-    let num := p.numOff + 1
-    let numLen := (p.numLen + 65535) % 65536
-    let dp := p.dp - 1
-    let zeros0 := countFwd inp num (num + (dp + 1).toNat)
-    let allZ := (zeros0 : Int) == dp + 1
-    let zeros : Int := if allZ then (zeros0 : Int) - 1 else zeros0
-    let dp := if allZ then 1 else dp
-    let dot : Int := if allZ then 1 else 0
-    let bufLen : Int := m + dot + ((numLen : Int) - zeros)
-    let n : Int := (numLen : Int) - zeros
-    let c := copyNumPart (slice inp (num + zeros.toNat) n.toNat) none dp m
-    (bufLen, minusW m ++ c.1, [n])
-  else if p.dp < p.numLen then
-    let bufLen : Int := m + p.dot + p.numLen
-    let c := copyNumPart (slice inp p.numOff p.numLen) p.decIdx p.dp m
-    (bufLen, minusW m ++ c.1, [(p.numLen : Int)])
-  else if p.leadingZero then
-    let num := p.numOff + 1
-    let numLen := (p.numLen + 65535) % 65536
-    let zeros := countFwd inp num (num + numLen)
-    let bufLen : Int := m + p.dp - zeros
-    let n : Int := (numLen : Int) - zeros
-    let c := copyNumPart (slice inp (num + zeros) n.toNat) none p.dp m
-    let i := m + c.2
-    let pad : Int := bufLen - i
-    (bufLen, minusW m ++ c.1 ++ memsetW i 48 pad.toNat, [n, pad])
+  let zeros := p.dp.natAbs
+  let bufLen : Int := m + 1 + p.dot + zeros + p.numLen
+  let c := copyNumPart (slice inp p.numOff p.numLen) p.decIdx (-1) (m + 2 + zeros)
+  (bufLen, minusW m ++ [(m, 48), (m + 1, 46)] ++ memsetW (m + 2) 48 zeros ++ c.1, [(zeros : Int), p.numLen])
+
+/-- mantissa `0.ddd`, the point moves inside the digits — as in libyang 3.7.8 (finding F14: `dp_position--`, and the
+    byte of the new point is not counted when `dot = 0`) -/
+def composeB2orig (inp : Bytes) (p : Prep) : Composed :=
+  let m := p.m
+  let num := p.numOff + 1
+  let numLen := (p.numLen + 65535) % 65536
+  let dp := p.dp - 1
+  let zeros0 := countFwd inp num (num + (dp + 1).toNat)
+  let allZ := (zeros0 : Int) == dp + 1
+  let zeros : Int := if allZ then (zeros0 : Int) - 1 else zeros0
+  let dp := if allZ then 1 else dp
+  let dot : Int := if allZ then 1 else 0
+  let bufLen : Int := m + dot + ((numLen : Int) - zeros)
+  let n : Int := (numLen : Int) - zeros
+  let c := copyNumPart (slice inp (num + zeros.toNat) n.toNat) none dp m
+  (bufLen, minusW m ++ c.1, [n])
+
+/-- the same branch as rewritten by `fixes/F14.diff` -/
+def composeB2fixed (inp : Bytes) (p : Prep) : Composed :=
+  let m := p.m
+  let num := p.numOff + 1
+  let numLen := (p.numLen + 65535) % 65536
+  let zeros0 := countFwd inp num (num + p.dp.toNat)
+  let allZ := (zeros0 : Int) == p.dp
+  let zeros : Int := if allZ then (zeros0 : Int) - 1 else zeros0
+  let dp := if allZ then 1 else p.dp - zeros
+  let bufLen : Int := m + 1 + ((numLen : Int) - zeros)
+  let n : Int := (numLen : Int) - zeros
+  let c := copyNumPart (slice inp (num + zeros.toNat) n.toNat) none dp m
+  (bufLen, minusW m ++ c.1, [n])
+
+/-- no leading zero, the point moves inside the digits -/
+def composeB3 (inp : Bytes) (p : Prep) : Composed :=
+  let m := p.m
+  let bufLen : Int := m + p.dot + p.numLen
+  let c := copyNumPart (slice inp p.numOff p.numLen) p.decIdx p.dp m
+  (bufLen, minusW m ++ c.1, [(p.numLen : Int)])
+
+/-- mantissa `0.ddd`, integer result: digits without their leading zeros, then zeros -/
+def composeB4 (inp : Bytes) (p : Prep) : Composed :=
+  let m := p.m
+  let num := p.numOff + 1
+  let numLen := (p.numLen + 65535) % 65536
+  let zeros := countFwd inp num (num + numLen)
+  let bufLen : Int := m + p.dp - zeros
+  let n : Int := (numLen : Int) - zeros
+  let c := copyNumPart (slice inp (num + zeros) n.toNat) none p.dp m
+  let i := m + c.2
+  let pad : Int := bufLen - i
+  (bufLen, minusW m ++ c.1 ++ memsetW i 48 pad.toNat, [n, pad])
+
+/-- no leading zero, integer result: digits, then zeros -/
+def composeB5 (inp : Bytes) (p : Prep) : Composed :=
+  let m := p.m
+  let bufLen : Int := m + p.dp
+  let c := copyNumPart (slice inp p.numOff p.numLen) p.decIdx p.dp m
+  let i := m + c.2
+  let pad : Int := bufLen - i
+  (bufLen, minusW m ++ c.1 ++ memsetW i 48 pad.toNat, [(p.numLen : Int), pad])
+
+/-- "Final composition of the result": the `if` chain of the source as it is now — `Generated.lyjsonExpLeadingZeroFixed`
+    is read off the source by the translator (3.7.8: false) -/
+def compose (inp : Bytes) (p : Prep) : Composed :=
+  if p.dp ≤ 0 then composeB1 inp p
+  else if Generated.lyjsonExpLeadingZeroFixed then
+    if p.leadingZero && p.dp < (p.numLen : Int) - 1 then composeB2fixed inp p
+    else if !p.leadingZero && p.dp < p.numLen then composeB3 inp p
+    else if p.leadingZero then composeB4 inp p
+    else composeB5 inp p
   else
-    let bufLen : Int := m + p.dp
-    let c := copyNumPart (slice inp p.numOff p.numLen) p.decIdx p.dp m
-    let i := m + c.2
-    let pad : Int := bufLen - i
-    (bufLen, minusW m ++ c.1 ++ memsetW i 48 pad.toNat, [(p.numLen : Int), pad])
+    if p.leadingZero && p.dp < p.numLen then composeB2orig inp p
+    else if p.dp < p.numLen then composeB3 inp p
+    else if p.leadingZero then composeB4 inp p
+    else composeB5 inp p
 
 /-- the digits `strtoll(exponent + 1, …)` converts -/
 def expDigits (inp : Bytes) (expOff : Nat) : Bytes :=
